@@ -15,6 +15,7 @@ type regionCtx struct {
 	glob     map[types.Object]string // variables captured by the forked closures: one object for the region
 	iter     map[types.Object]bool   // variables of one iteration of the forking loop: one per instance
 	shared   map[types.Object]string // variables captured by a goroutine that is never joined
+	counters map[types.Object]string // ... of which: RPC counters handed to such a goroutine in a context (kept across passes)
 	distinct map[types.Object]bool   // entry parameters that differ in every instance
 	hoisted  []Role                  // goroutines started and never joined
 	noFork   bool                    // translating the forking function itself (its closures are the other roles)
@@ -34,8 +35,10 @@ type xl struct {
 	out     *[]Stmt
 	curBody ast.Node // body of the function or closure being translated
 	locks   []*lockFrame
-	esc     *[]escape // references to shared memory the function being translated returns
-	lastEsc []escape  // ... and those of the call translated last
+	curType *ast.FuncType
+	ctxc    map[types.Object]*path // context variables -> the RPC counter their context carries (wctx.WithCounter)
+	esc     *[]escape              // references to shared memory the function being translated returns
+	lastEsc []escape               // ... and those of the call translated last
 	lastAt  ast.Node
 }
 
@@ -249,6 +252,7 @@ func (x *xl) stmt(s ast.Stmt) {
 			if len(vs.Values) == len(vs.Names) {
 				for i, n := range vs.Names {
 					x.bindLocal(n, vs.Values[i])
+					x.setCtx(n, x.ctxOf(vs.Values[i]))
 				}
 			}
 		}
@@ -407,6 +411,18 @@ func (x *xl) assign(s *ast.AssignStmt) {
 	x.lastEsc, x.lastAt = nil, nil
 	for _, r := range s.Rhs {
 		x.rd(r)
+	}
+	// contexts: which counter does the assigned context carry
+	if len(s.Rhs) == len(s.Lhs) {
+		cs := make([]*path, len(s.Rhs))
+		for i, r := range s.Rhs {
+			cs[i] = x.ctxOf(r)
+		}
+		for i, l := range s.Lhs {
+			x.setCtx(l, cs[i])
+		}
+	} else if len(s.Rhs) == 1 {
+		x.setCtx(s.Lhs[0], x.ctxOf(s.Rhs[0])) // ctx, cancel := context.WithTimeout(ctx, d)
 	}
 	var esc []escape
 	if len(s.Rhs) == 1 {
@@ -862,6 +878,16 @@ func (x *xl) call(c *ast.CallExpr) {
 			x.args(c.Args[1:])
 		}
 		return
+	case pkgPath == Module+"/wctx":
+		// context plumbing; the RPC counter is the one piece of shared memory
+		x.args(c.Args)
+		switch f.Name() {
+		case "CounterAdd":
+			x.access(At, x.ctxOf(c.Args[0]), c)
+		case "Counter":
+			x.access(Rd, x.ctxOf(c.Args[0]), c)
+		}
+		return
 	case pkgPath == "golang.org/x/sync/errgroup":
 		x.t.visited[c.Pos()] = true
 		switch f.Name() {
@@ -1078,11 +1104,11 @@ func (x *xl) closure(lit *ast.FuncLit, args []ast.Expr, bind bool) {
 		}
 	}
 	x.stack = append(x.stack, x.p.litName[lit])
-	saved := x.curBody
-	x.curBody = lit.Body
+	saved, savedType := x.curBody, x.curType
+	x.curBody, x.curType = lit.Body, lit.Type
 	x.analyseFresh(lit.Type, lit.Body)
 	x.stmts(lit.Body.List)
-	x.curBody = saved
+	x.curBody, x.curType = saved, savedType
 	x.stack = x.stack[:len(x.stack)-1]
 }
 
@@ -1140,10 +1166,22 @@ func (x *xl) inline(f *types.Func, args []ast.Expr, recvPath *path, at ast.Node)
 			binds = append(binds, pb{ro, binding{}, false})
 		}
 	}
+	type cb struct {
+		obj types.Object
+		p   *path
+	}
+	var cbs []cb
 	i := 0
 	for _, fld := range decl.Type.Params.List {
 		for _, n := range fld.Names {
 			obj := x.p.objOf(n)
+			if obj != nil && isCtx(obj.Type()) {
+				var cp *path
+				if i < len(args) {
+					cp = x.ctxOf(args[i])
+				}
+				cbs = append(cbs, cb{obj, cp})
+			}
 			if i < len(args) && obj != nil {
 				saved := x.env[obj]
 				_, had := x.env[obj]
@@ -1168,14 +1206,21 @@ func (x *xl) inline(f *types.Func, args []ast.Expr, recvPath *path, at ast.Node)
 			delete(x.env, b.obj)
 		}
 	}
+	for _, c := range cbs {
+		if c.p != nil {
+			x.ctxc[c.obj] = c.p
+		} else {
+			delete(x.ctxc, c.obj)
+		}
+	}
 	x.active[f] = true
 	x.stack = append(x.stack, x.p.FuncName(f))
-	saved, savedEsc, savedLocks := x.curBody, x.esc, x.locks
+	saved, savedEsc, savedLocks, savedType := x.curBody, x.esc, x.locks, x.curType
 	var esc []escape
-	x.curBody, x.esc, x.locks = decl.Body, &esc, nil
+	x.curBody, x.esc, x.locks, x.curType = decl.Body, &esc, nil, decl.Type
 	x.analyseFresh(decl.Type, decl.Body)
 	x.stmts(decl.Body.List)
-	x.curBody, x.esc, x.locks = saved, savedEsc, savedLocks
+	x.curBody, x.esc, x.locks, x.curType = saved, savedEsc, savedLocks, savedType
 	x.stack = x.stack[:len(x.stack)-1]
 	delete(x.active, f)
 	// a returned reference to shared memory: the caller may read it from here
@@ -1284,7 +1329,7 @@ func (x *xl) spawn(c *ast.CallExpr, at ast.Node) {
 	if x.joined() {
 		// a fork/join span: its own region (once); here the children run in
 		// sequence as part of the enclosing goroutine
-		x.t.region(x.curBody, x.stack[len(x.stack)-1])
+		x.t.region(x.curBody, x.curType, x.stack[len(x.stack)-1])
 		if lit != nil {
 			x.closure(lit, nil, false)
 		} else {
@@ -1301,12 +1346,18 @@ func (x *xl) spawn(c *ast.CallExpr, at ast.Node) {
 				if _, ok := x.region.glob[v]; !ok {
 					x.region.shared[v] = x.varName(v.(*types.Var))
 				}
+				x.shareCounter(x.ctxc[v])
 			}
 			x.closure(lit, nil, false)
 		} else {
 			f, _ := x.p.callee(goCall)
 			if f != nil {
 				name = x.p.FuncName(f)
+			}
+			for _, a := range goCall.Args {
+				if isCtx(x.p.typeOf(a)) {
+					x.shareCounter(x.ctxOf(a))
+				}
 			}
 			x.rd(goCall)
 		}
@@ -1348,7 +1399,7 @@ func (x *xl) captured(lit *ast.FuncLit) []types.Object {
 
 // region builds the region of one fork/join span: the function `body` forks
 // closures (errgroup.Go, go) and waits for them.
-func (t *translator) region(body ast.Node, fname string) {
+func (t *translator) region(body ast.Node, ft *ast.FuncType, fname string) {
 	if t.done[fname] {
 		return
 	}
@@ -1430,11 +1481,34 @@ func (t *translator) region(body ast.Node, fname string) {
 			}
 		}
 	}
+	// a context parameter of the forking function carries the caller's counter
+	ctxParams := func(x *xl) {
+		if ft == nil || ft.Params == nil {
+			return
+		}
+		for _, fld := range ft.Params.List {
+			for _, n := range fld.Names {
+				if obj := t.p.objOf(n); obj != nil && isCtx(obj.Type()) {
+					if v, ok := obj.(*types.Var); ok {
+						x.ctxc[obj] = x.rootPath(v).with(counterStep)
+					}
+				}
+			}
+		}
+	}
+	nshared := -1
+build:
+	rc.hoisted = nil
+	rc.shared = map[types.Object]string{}
+	for k, v := range rc.counters {
+		rc.shared[k] = v
+	}
 	var roles []Role
 	for _, s := range sites {
 		x := t.newXL(rc)
 		x.stack = []string{fname}
-		x.curBody = body
+		x.curBody, x.curType = body, ft
+		ctxParams(x)
 		var list []Stmt
 		x.out = &list
 		name := ""
@@ -1452,7 +1526,8 @@ func (t *translator) region(body ast.Node, fname string) {
 	// the forking function itself while its children run: the statements that fork
 	px := t.newXL(rc)
 	px.stack = []string{fname}
-	px.curBody = body
+	px.curBody, px.curType = body, ft
+	ctxParams(px)
 	rc.noFork = true
 	var plist []Stmt
 	px.out = &plist
@@ -1462,27 +1537,57 @@ func (t *translator) region(body ast.Node, fname string) {
 		blk = b
 	}
 	if blk != nil {
+		// from the first statement that forks up to the statement that waits
 		px.analyseFresh(nil, blk)
-		for _, s := range blk.List {
-			forks := false
+		contains := func(s ast.Stmt, pred func(ast.Node) bool) bool {
+			found := false
 			ast.Inspect(s, func(n ast.Node) bool {
-				for _, st := range sites {
-					if n == ast.Node(st.call) {
-						forks = true
-					}
+				if n != nil && pred(n) {
+					found = true
 				}
-				return !forks
+				return !found
 			})
-			if forks {
-				if _, isLoop := s.(*ast.ForStmt); isLoop {
-					px.stmt(s)
-				} else if _, isLoop := s.(*ast.RangeStmt); isLoop {
-					px.stmt(s)
+			return found
+		}
+		isFork := func(n ast.Node) bool {
+			for _, st := range sites {
+				if n == ast.Node(st.call) {
+					return true
 				}
 			}
+			return false
+		}
+		isWait := func(n ast.Node) bool {
+			if c, ok := n.(*ast.CallExpr); ok {
+				if f, _ := t.p.callee(c); f != nil && f.Name() == "Wait" && f.Pkg() != nil &&
+					(f.Pkg().Path() == "golang.org/x/sync/errgroup" || f.Pkg().Path() == "sync") {
+					return true
+				}
+			}
+			return false
+		}
+		first, last := -1, len(blk.List)
+		for i, s := range blk.List {
+			if first < 0 && contains(s, isFork) {
+				first = i
+			}
+			if first >= 0 && contains(s, isWait) {
+				last = i
+				break
+			}
+		}
+		if first >= 0 {
+			px.stmts(blk.List[first:last])
 		}
 	}
 	rc.noFork = false
+	if nshared != len(rc.counters) {
+		// a step's counter turned out to be handed to a goroutine nobody waits
+		// for after accesses to it had been classified as private: translate
+		// again with that known
+		nshared = len(rc.counters)
+		goto build
+	}
 	roles = append(roles, Role{Name: fname + " (while its goroutines run)", Repl: false, Body: plist})
 	roles = append(roles, rc.hoisted...)
 	t.regions = append(t.regions, Region{Name: fname, Roles: roles})
@@ -1490,7 +1595,7 @@ func (t *translator) region(body ast.Node, fname string) {
 
 func (t *translator) newXL(rc *regionCtx) *xl {
 	return &xl{p: t.p, t: t, region: rc, env: map[types.Object]binding{}, fresh: map[types.Object]bool{}, alloc: map[types.Object]bool{},
-		declFn: map[types.Object]string{}, active: map[*types.Func]bool{}}
+		declFn: map[types.Object]string{}, active: map[*types.Func]bool{}, ctxc: map[types.Object]*path{}}
 }
 
 // Translate builds the skeleton of the repository at repo.
@@ -1532,10 +1637,20 @@ func Translate(repo string) (sk *Skeleton, err error) {
 			}
 		}
 		t.done[e.region] = true
-		x := t.newXL(rc)
 		var list []Stmt
-		x.out = &list
-		x.inline(fn, nil, nil, decl)
+		for nshared := -1; nshared != len(rc.counters); {
+			// (again when a step's counter turned out to be handed to a goroutine
+			// nobody waits for after accesses to it had been classified as private)
+			nshared = len(rc.counters)
+			rc.hoisted, list = nil, nil
+			rc.shared = map[types.Object]string{}
+			for k, v := range rc.counters {
+				rc.shared[k] = v
+			}
+			x := t.newXL(rc)
+			x.out = &list
+			x.inline(fn, nil, nil, decl)
+		}
 		roles := []Role{{Name: e.fn, Repl: e.repl, Body: list}}
 		roles = append(roles, rc.hoisted...)
 		t.regions = append([]Region{{Name: e.region, Roles: roles}}, t.regions...)
@@ -1667,4 +1782,83 @@ func shapeKey(ss []Stmt) string {
 		}
 	}
 	return sb.String()
+}
+
+// ---------------------------------------------------------------- context values
+//
+// The one context value that is memory shared between goroutines is the RPC
+// counter of a step: Task.Converge stores &nrpc with wctx.WithCounter, every
+// Client.do adds to it atomically through wctx.CounterAdd(ctx, 1), the step
+// reads it with a plain load in wctx.Counter(ctx).  The translator follows
+// which counter a context carries along assignments, derived contexts
+// (wctx.With*, context.With*), calls, closures and go statements.
+
+func isCtx(t types.Type) bool { return t != nil && t.String() == "context.Context" }
+
+var counterStep = step{kind: 'f', name: "counter", owner: "wctx", typ: types.Typ[types.Uint64]}
+
+// ctxOf: the counter location the context value of e carries (nil: none known).
+func (x *xl) ctxOf(e ast.Expr) *path {
+	switch e := ast.Unparen(e).(type) {
+	case *ast.Ident:
+		if v, ok := x.p.objOf(e).(*types.Var); ok {
+			return x.ctxc[v]
+		}
+	case *ast.CallExpr:
+		f, _ := x.p.callee(e)
+		if f == nil || f.Pkg() == nil || len(e.Args) == 0 {
+			return nil
+		}
+		switch f.Pkg().Path() {
+		case Module + "/wctx":
+			if f.Name() == "WithCounter" && len(e.Args) == 2 {
+				if p := x.pointee(e.Args[1]); p != nil {
+					return p.with(counterStep)
+				}
+				return nil
+			}
+			if strings.HasPrefix(f.Name(), "With") {
+				return x.ctxOf(e.Args[0])
+			}
+		case "context":
+			if strings.HasPrefix(f.Name(), "With") {
+				return x.ctxOf(e.Args[0])
+			}
+		}
+	}
+	return nil
+}
+
+func (x *xl) setCtx(lhs ast.Expr, p *path) {
+	id, ok := ast.Unparen(lhs).(*ast.Ident)
+	if !ok || id.Name == "_" {
+		return
+	}
+	if v, ok := x.p.objOf(id).(*types.Var); ok && isCtx(v.Type()) {
+		if p == nil {
+			delete(x.ctxc, v)
+		} else {
+			x.ctxc[v] = p
+		}
+	}
+}
+
+// shareCounter: the counter carried by a context handed to a goroutine nobody
+// waits for is no longer private to the step that owns it.
+func (x *xl) shareCounter(p *path) {
+	if p == nil || p.root == nil {
+		return
+	}
+	if _, ok := x.region.glob[p.root]; ok {
+		return
+	}
+	if v, ok := p.root.(*types.Var); ok {
+		if _, ok := x.region.counters[v]; !ok {
+			if x.region.counters == nil {
+				x.region.counters = map[types.Object]string{}
+			}
+			x.region.counters[v] = x.varName(v)
+			x.region.shared[v] = x.region.counters[v]
+		}
+	}
 }
